@@ -3,6 +3,7 @@ import logging
 from authlib.jose import jwt
 from authlib.jose.errors import JoseError
 
+from ..base import OAuth2Error
 from ..base import invalid_error_characters
 from ..rfc6749 import InvalidClientError
 
@@ -64,12 +65,27 @@ class JWTBearerClientAssertion:
 
         .. _`Section 3.1`: https://tools.ietf.org/html/rfc7523#section-3.1
         """
+        lookup_failures = []
+
+        def load_key(headers, payload):
+            try:
+                return resolve_key(headers, payload)
+            except (JoseError, OAuth2Error):
+                raise
+            except Exception as exc:
+                # a failure of the integrator's own look-ups says nothing
+                # about the assertion: it is passed on, not answered
+                lookup_failures.append(exc)
+                raise
+
         try:
             claims = jwt.decode(
-                assertion, resolve_key, claims_options=self.create_claims_options()
+                assertion, load_key, claims_options=self.create_claims_options()
             )
             claims.validate(leeway=self.leeway)
         except (JoseError, ValueError) as e:
+            if lookup_failures:
+                raise
             # ValueError: the key does not fit the algorithm of the assertion,
             # or no key has the "kid" of the assertion
             log.debug("Assertion Error: %r", e)
